@@ -103,4 +103,8 @@ def rdbx_monitor(script, c):
 
 def families(tier, seed):
     rng = random.Random(seed * 1000 + 5)
-    return [Family("rdbx-leaf", rdbx_scripts(tier, rng), monitor=rdbx_monitor)]
+    from lib import apigen
+    n = 10 if tier == "quick" else 120
+    api = [(f"rx-{k}", apigen.replay_history(rng, tier)[0]) for k in range(n)]
+    return [Family("rdbx-leaf", rdbx_scripts(tier, rng), monitor=rdbx_monitor),
+            Family("srtp-unprotect-histories", api, monitor=lambda s, c: apigen.replay_monitor(s, c, False))]
